@@ -67,23 +67,33 @@ structure Table where
   size : Nat
   /-- `freeItem` list, head first -/
   free : List Nat
-  /-- number of 4-item blocks allocated so far; block `n` holds the ids `4n … 4n+3` -/
+  /-- number of item blocks allocated so far; block `n` holds the ids `ipb·n … ipb·n + ipb - 1` -/
   blocks : Nat
+  /-- class constant: items per block (`new char[sizeof(ItemBlock) + sizeof(Item) * N]`, `end = item + N`; 4 in the
+      sources the model was written from; read from the current sources by the translator) -/
+  ipb : Nat
+  /-- class constant: capacity of the default and the copy constructor (500) -/
+  dcap : Nat
 
-instance : Inhabited Table := ⟨⟨1, false, fun _ => [], fun _ => default, [], 0, [], 0⟩⟩
+instance : Inhabited Table := ⟨⟨1, false, fun _ => [], fun _ => default, [], 0, [], 0, 1, 1⟩⟩
 
 namespace Table
 
 /-- all constructors: empty sentinel list, no bucket array, no blocks -/
-def fresh (cap : Nat) : Table :=
+def fresh (cap ipb dcap : Nat) : Table :=
   { cap := cap, allocated := false, data := fun _ => [], items := fun _ => ⟨0, 0, 0⟩,
-    order := [], size := 0, free := [], blocks := 0 }
+    order := [], size := 0, free := [], blocks := 0, ipb := ipb, dcap := dcap }
 
 /-- `explicit HashMap(usize capacity)`: `this->capacity |= (usize)!capacity` -/
-def construct (capacity : Nat) : Table := fresh (if capacity = 0 then 1 else capacity)
+def construct (ipb dcap capacity : Nat) : Table := fresh (if capacity = 0 then 1 else capacity) ipb dcap
 
 /-- `HashMap()` -/
-def constructDefault : Table := fresh 500
+def constructDefault (ipb dcap : Nat) : Table := fresh dcap ipb dcap
+
+/-- the free list after `for(i = first … first+n-1) { i->prev = freeItem; freeItem = i; }` -/
+def pushRange : Nat → Nat → List Nat → List Nat
+  | _, 0, free => free
+  | first, n + 1, free => pushRange (first + 1) n (first :: free)
 
 /-- the `while(item)` loop of `find`: walk the chain, first item whose key equals `k` -/
 def chainFind (items : Nat → Item) (k : Nat) : List Nat → Option Nat
@@ -94,16 +104,16 @@ def chainFind (items : Nat → Item) (k : Nat) : List Nat → Option Nat
 def find (h : Nat → Nat) (t : Table) (k : Nat) : Option Nat :=
   if t.allocated then chainFind t.items k (t.data (h k % t.cap)) else none
 
-/-- take an item from the free list, or allocate a block of four.  Returns (item, new free list, new block count).
-    HashMap/HashSet use the first item of a new block and push the items 1,2,3;
-    PoolMap pushes 0,1,2,3 and pops the last one. -/
+/-- take an item from the free list, or allocate a block of `ipb` items.  Returns (item, new free list, new block count).
+    HashMap/HashSet use the first item of a new block and push the others in ascending order;
+    PoolMap pushes all of them and pops the last one. -/
 def allocItem (kind : Kind) (t : Table) : Nat × List Nat × Nat :=
   match t.free with
   | f :: rest => (f, rest, t.blocks)
   | [] =>
-    let b := 4 * t.blocks
-    if kind = Kind.pool then (b + 3, [b + 2, b + 1, b], t.blocks + 1)
-    else (b, [b + 3, b + 2, b + 1], t.blocks + 1)
+    let b := t.ipb * t.blocks
+    if kind = Kind.pool then (b + (t.ipb - 1), pushRange b (t.ipb - 1) [], t.blocks + 1)
+    else (b, pushRange (b + 1) (t.ipb - 1) [], t.blocks + 1)
 
 /-- value stored for a new item: HashMap stores the argument, HashSet has no value, PoolMap default-constructs -/
 def storedValue (kind : Kind) (v : Nat) : Nat := if kind = Kind.map then v else 0
@@ -170,9 +180,9 @@ def appendAll (kind : Kind) (h : Nat → Nat) (t : Table) (oitems : Nat → Item
   | [] => t
   | id :: rest => appendAll kind h (t.append kind h (oitems id).key (oitems id).value).1 oitems rest
 
-/-- copy constructor: default capacity 500, then re-append -/
+/-- copy constructor: default capacity, then re-append -/
 def copyOf (kind : Kind) (h : Nat → Nat) (other : Table) : Table :=
-  appendAll kind h (fresh 500) other.items other.order
+  appendAll kind h (fresh other.dcap other.ipb other.dcap) other.items other.order
 
 /-- `operator=` (with a different object): `clear()`, then re-append; keeps its own capacity -/
 def assignFrom (kind : Kind) (h : Nat → Nat) (t other : Table) : Table :=
@@ -221,7 +231,11 @@ structure State where
 def State.get (s : State) (t : Bool) : Table := if t then s.b else s.a
 def State.set (s : State) (t : Bool) (x : Table) : State := if t then { s with b := x } else { s with a := x }
 
-def init : State := ⟨Table.constructDefault, Table.constructDefault⟩
+/-- two default-constructed tables of a container class with `ipb` items per block and default capacity `dcap` -/
+def initWith (ipb dcap : Nat) : State := ⟨Table.constructDefault ipb dcap, Table.constructDefault ipb dcap⟩
+
+/-- the constants of the sources the model was written from -/
+def init : State := initWith 4 500
 
 inductive Op where
   | construct (t : Bool) (cap : Nat)      -- destroy, `new(..) C(cap)`
@@ -282,8 +296,8 @@ def shown (kind : Kind) (t : Table) (id : Nat) : Nat :=
 def step (kind : Kind) (h : Nat → Nat) (s : State) (op : Op) : Option (State × Out) :=
   if !op.available kind then none else
   match op with
-  | .construct t cap => some (s.set t (Table.construct cap), .unit)
-  | .constructDefault t => some (s.set t Table.constructDefault, .unit)
+  | .construct t cap => some (s.set t (Table.construct (s.get t).ipb (s.get t).dcap cap), .unit)
+  | .constructDefault t => some (s.set t (Table.constructDefault (s.get t).ipb (s.get t).dcap), .unit)
   | .copyFrom t => some (s.set t (Table.copyOf kind h (s.get (!t))), .unit)
   | .assign t => some (s.set t (Table.assignFrom kind h (s.get t) (s.get (!t))), .unit)
   | .append t k v =>
